@@ -131,6 +131,12 @@ func (o *oracle) check(env *run5.Env, h hstate, q int) (viols []violation, done 
 			done = false
 		}
 	}
+	if done && !env.Finished() {
+		// auxiliary mechanism invariant (anchor "Finished flag: duty completed"): once everything is
+		// submitted the runner must stop processing partial signatures of this duty
+		viols = append(viols, violation{sig: "submitted-but-not-finished " + tag, what: "every decided object has been submitted but the runner still reports a running duty (Finished not set)",
+			observed: "Finished=false", expected: "Finished=true"})
+	}
 	if h.numLatest() >= q && !done {
 		// classify by what the container holds for the first missing object
 		cont := env.Container()
